@@ -102,13 +102,13 @@ func cScript(k int, rng interface{ Intn(int) int }, thorough bool) (phases []str
 	dur := func(lo, hi int) string { return strconv.Itoa(lo + rng.Intn(hi-lo+1)) }
 	switch k % 12 {
 	case 0:
-		return []string{"steady", "cut", "stall"}, 1, false
+		return []string{"steady", "cut-while-login-parked:1", "stall"}, 1, false
 	case 1:
 		return []string{"restart:" + dur(300, maxOut), "cut-quick:" + dur(20, 800)}, 20, false
 	case 2:
-		return []string{"cut", "cut-mid-registration"}, 150, false
+		return []string{"cut", "cut-mid-registration", "cut-while-login-parked:1"}, 150, false
 	case 3:
-		return []string{"stall", "refuse:" + dur(500, maxOut)}, 20, false
+		return []string{"stall", "cut-while-login-parked:2", "refuse:" + dur(500, maxOut)}, 20, false
 	case 4:
 		return []string{"restart:" + dur(300, 4000), "steady"}, 150, false
 	case 5:
@@ -120,7 +120,7 @@ func cScript(k int, rng interface{ Intn(int) int }, thorough bool) (phases []str
 	case 8:
 		return []string{"restart:" + dur(300, 4000), "cut"}, 1, true
 	case 9:
-		return []string{"steady", "down:" + dur(500, maxOut)}, 20, false
+		return []string{"steady", "down:" + dur(500, maxOut), "cut-while-login-parked:" + strconv.Itoa(1+rng.Intn(2))}, 20, false
 	case 10:
 		return []string{"blackhole", "restart:" + dur(300, 3000)}, 150, false
 	default:
@@ -139,6 +139,7 @@ func cRandomScript(rng interface{ Intn(int) int }) (phases []string, n int, chil
 		func() string { return "down:" + dur(500, 25000) },
 		func() string { return "restart:" + dur(200, 25000) },
 		func() string { return "cut-mid-registration" },
+		func() string { return "cut-while-login-parked:" + strconv.Itoa(1+rng.Intn(2)) },
 		func() string { return "traffic-cut" },
 		func() string { return "steady" },
 	}
@@ -694,6 +695,32 @@ func (e *cEnv) phase(ph string) bool {
 
 	case "reload-outage":
 		return e.reloadOutage(arg)
+
+	case "cut-while-login-parked":
+		if e.srv == nil || e.runID == "" {
+			e.relay.CutAll() // child server: no hook point, plain cut
+			return e.awaitRecovery("cut", start)
+		}
+		if argN < 1 {
+			argN = 1
+		}
+		for rep := 0; rep < argN; rep++ {
+			// the re-login (same run id) is parked between "control entered in the session table" and the login reply
+			gate := h.NewGate("server.registerControl.beforeStart", e.runID, 1)
+			e.relay.CutAll()
+			if !gate.WaitArrived(recoveryGrace) {
+				gate.Release()
+				e.c.Violation("no-recovery-after-cut", "mux=%v, %d proxies: no re-login reached frps within %v after the connection was cut", e.mux, e.n, recoveryGrace)
+				return false
+			}
+			// the connection of the parked login dies: its reply cannot be delivered any more
+			e.relay.ResetAll()
+			time.Sleep(time.Duration(60+e.c.Rng.Intn(200)) * time.Millisecond)
+			e.loginsAt = e.logins.Load() // the parked login is already counted: recovery needs a later one
+			gate.Release()
+			run.Count("C_login_replies_lost", 1)
+		}
+		return e.awaitRecovery("login-reply-lost", h.Now())
 
 	case "refuse", "down":
 		d := time.Duration(argN) * time.Millisecond
